@@ -39,6 +39,7 @@ def run(ctx):
             if n % 9 == 0:
                 ctx.sample({"call": short(c), "in": fn, "where": b.where(c.ln), "disposition": v})
     ctx.floor("R-ERR", "io::Result-producing call sites", n, 60)
+    ctx._err_done = True
     write_discipline(ctx, F, sc)
     # ---- counter bookkeeping
     writers = {}
@@ -177,6 +178,15 @@ def write_discipline(ctx, F, sc=None):
 def counted_sink(ctx, F):
     """Every byte that reaches the sink is counted: offsets in the cross-reference data are read off the counter."""
     write_discipline(ctx, F)
+    # the two save routines report every failure of the sink (for the properties that only include this group: a swallowed
+    # failure of, say, the copy of the previous revisions yields Ok and a file that is not what was promised)
+    if not getattr(ctx, "_err_done", False):
+        for fn_ in ("Document::save_internal", "IncrementalDocument::save_internal"):
+            sb = F.fn(fn_)
+            for c in lib.result_calls(sb, lambda e, t: bool(IO_ERR.search(e))):
+                v, why = lib.result_disposition(sb, c.dest["l"])
+                ctx.ob("R-ERR", "%s|%s" % (fn_, short(c)), v in ("propagated", "returned", "err-extracted"), "%s: %s" % (v, why), sb.where(c.ln),
+                       what="io::Result of %s in %s is %s (%s): a sink failure here would not be reported" % (short(c), fn_, v, why))
     # (c) the bypass in IncrementalDocument::save_internal
     b = F.fn("IncrementalDocument::save_internal")
     ok = False
@@ -184,16 +194,32 @@ def counted_sink(ctx, F):
     byp = [c for c in b.calls if re.search(r"io::Write::write_all$", c.fn or "") and "inner" in b.oname(c.args[0], 3)]
     sts = lib.stores_to_field(b, "bytes_written")
     raw = [x for x in lib.field_accesses(b, "CountingWrite", "inner") if x[1] != "init"]
+    # The reader cuts off what precedes the `%PDF-` header and reads every offset from there; so the counter, which the
+    # offsets of the update are read off, advances by the length of the prefix *minus the part in front of the header*, found
+    # the same way the reader finds it (the same function of the buffer).
+    rd = F.fn("Reader::read")
+    origin = None
+    for c in rd.calls:
+        if (c.fn or "").endswith("ops::Index::index") and "RangeFrom" in (c.full or "") and re.search(r"self\.buffer$", rd.oname(c.args[0], 3).strip("&*")):
+            d = rd.def_rv(c.args[1])
+            if d and d[2] == "rv" and d[3]["k"] == "agg" and len(d[3]["ops"]) == 1:
+                origin = rd.sname(d[3]["ops"][0], 8).replace("&", "").replace("*", "").replace("self.buffer", "BUF")
+            break
     if len(byp) == 1 and len(sts) == 1:
-        t = b.rvname(sts[0][2]["rv"], 4)
+        t = b.rvname(sts[0][2]["rv"], 6)
         how = t
-        m = re.match(r"^Add\((.*bytes_written),len\(&?\*?(\w+)\)\)$", t)
-        if m and b.oname(byp[0].args[1], 3).strip("&*") == m.group(2):
-            ok = True
+        pbuf = b.oname(byp[0].args[1], 3).strip("&*")
+        m = re.match(r"^Add\((.*bytes_written),Sub\(len\(&?\*?(\w+)\),(.+)\)\)$", t)
+        if m and pbuf == m.group(2) and origin is not None:
+            mine = m.group(3).replace("&", "").replace("*", "").replace(pbuf, "BUF")
+            ok = mine == origin and "BUF" in origin
+            how = "%s; the reader cuts its buffer at %s" % (t, origin)
+        elif re.match(r"^Add\((.*bytes_written),len\(&?\*?(\w+)\)\)$", t):
+            how = "%s: bytes in front of the header are counted, the reader (which cuts its buffer at %s) does not count them" % (t, origin)
     elif not byp and not sts and not raw:
-        ok, how = True, "nothing bypasses the counting wrapper"
-    ctx.ob("R-ORDER", "prefix-bypass-accounted", ok, "the history prefix is counted: target.inner.write_all(prev) paired with bytes_written += prev.len(), or written through the wrapper (%s)" % how, b.where(),
-           what="the history prefix written through the inner sink is not accounted in bytes_written (all offsets of the update would be wrong)")
+        ok, how = (origin == "0" or origin is None), "nothing bypasses the counting wrapper; the reader cuts its buffer at %s" % origin
+    ctx.ob("R-ORDER", "prefix-bypass-accounted", ok, "the history prefix is counted from the header on: target.inner.write_all(prev) paired with bytes_written += prev.len() - header offset, the same offset the reader cuts (%s)" % how, b.where(),
+           what="the history prefix written through the inner sink is not accounted in bytes_written the way the reader counts offsets (%s): all offsets of the update would be wrong" % how)
     ctx.ob("R-WHO", "raw-sink-uses|IncrementalDocument::save_internal", len(raw) == len(byp), "%d use(s) of the wrapped sink, each the accounted write_all" % len(raw), b.where(raw[-1][2] if raw else None),
            what="IncrementalDocument::save_internal reaches the wrapped sink %d time(s) but only %d of them are write_all calls paired with an update of bytes_written: bytes written past the counter shift every offset of the appended section and startxref" % (len(raw), len(byp)))
     # `inner` is touched nowhere else
